@@ -2,6 +2,7 @@ import XMT.Drv.Util
 import XMT.Route
 import XMT.RouteProxy
 import XMT.RouteChan
+import XMT.RouteProxyRegister
 namespace XMT.Drv.C15
 open XMT XMT.Route XMT.Drv
 
@@ -203,6 +204,17 @@ def handle (args : List String) : String :=
     match parseIds ids with
     | some (host :: rest) => (chanRun (host :: rest) [] { cid := 1, host := host, subs := [] } toks []).getD "bad-op"
     | _ => "bad-op"
+  | ["prxreg", ids] =>
+    -- the clients of a proxy (in the order given) after one `subsRegister`: for each the device its new
+    -- request names, as an index into the list
+    match parseIds ids with
+    | some cl =>
+      let t : Proxy.PTbl := (List.range cl.length).zip (cl.map fun i => ({ id := i, q := [] } : Proxy.Client))
+      let t' := (Proxy.subsRegister t (fun _ => 0)).1
+      " ".intercalate (t'.map fun e =>
+        let nw := e.2.q.map fun l => match cl.findIdx? (· == l.dev) with | some k => toString k | none => "?"
+        s!"{e.1}>{",".intercalate nw}")
+    | none => "bad-op"
   | "prx" :: ids :: toks =>
     match parseIds ids with
     | some (parent :: rest) => (prxRun (parent :: rest) parent [] toks []).getD "bad-op"
